@@ -37,6 +37,9 @@ def run(ctx: Ctx):
     indices(ctx)
     translation(ctx)
     legacy(ctx)
+    from .common import no_shared_writes
+
+    no_shared_writes(ctx, "no-shared-write")
 
 
 class _Ren(ast.NodeTransformer):
@@ -99,6 +102,36 @@ def column_bases(ctx: Ctx):
     cs = ctx.repo.cls(MM, "_ColumnSquaredBases")
     e = expand(ctx.repo, cs, "is_defined")
     ctx.check_expr("effective-base.guard", f"{MM}::_ColumnSquaredBases.is_defined", e, "self._cube_measures.weighted_squared_cube_counts is not None")
+    # "... or, when squared weights are supplied, the effective base": the ONLY condition under which the squared
+    # counts are undefined is the absence of the squared-weights measure.  Every disjunct of the refusing guard is
+    # classified; an additional condition (weights equal to 1 cell by cell, no plain count measure, ...) silently
+    # replaces the effective base by the unweighted base although squared weights were supplied.
+    from ..stmts import resolver
+
+    cmc = ctx.repo.cls("matrix/cubemeasure.py", "CubeMeasures")
+    wsm = ctx.repo.lookup(cmc, "weighted_squared_cube_counts")
+    where_ = "matrix/cubemeasure.py::CubeMeasures.weighted_squared_cube_counts"
+    if wsm is None:
+        ctx.undecided("effective-base.presence", where_, "member not found", "")
+    else:
+        body = SUMMARIZER.summarize(wsm.node)
+        extra, ok_atoms = [], []
+        for gs, leaf in strip_ifexp_paths(body):
+            if not (isinstance(leaf, ast.Constant) and leaf.value is None):
+                continue
+            for g, pol in gs:
+                if not pol:
+                    continue
+                for a in (g.values if isinstance(g, ast.BoolOp) and isinstance(g.op, ast.Or) else [g]):
+                    t = u(a)
+                    if t in ("self._cube.weighted_squared_counts is None",):
+                        ok_atoms.append(t)
+                    else:
+                        extra.append(t)
+        if extra:
+            ctx.violated("effective-base.presence", where_, extra, "undefined only when self._cube.weighted_squared_counts is None", "squared weights are supplied but the effective base is not used")
+        else:
+            ctx.ob("effective-base.presence", where_, ok_atoms, "undefined only when the squared-weights measure is absent", True if ok_atoms else None)
     ms = ctx.repo.cls(MM, "_MarginSquaredBase")
     e = expand(ctx.repo, ms, "is_defined")
     ctx.check_expr("effective-base.guard", f"{MM}::_MarginSquaredBase.is_defined", e, f"{SOM}.column_squared_bases.is_defined")
